@@ -18,6 +18,11 @@ Pipeline of one run (`zoo_pipeline`):
      block then second block in one process; and a second pass re-queries reads()/writes() of every
      type in a shuffled order after everything else ran (declared ids are a function of the type,
      not of its printed name nor of what happened earlier in the process).
+     Always present: wide nested shapes whose flattened reads()/writes() exceed 32 ids (up to 52, over
+     up to 50 distinct resource types).  In about half of the cases the world also holds dynamic-id
+     SIBLINGS (T, 1) / (T, 2) of Rust types the shape accesses statically (present or absent
+     independently of (T, 0)); they are further resources the shape never mentions: probed like
+     every cell, and never touched according to the model.
   3. the binaries run every type: reads()/writes() (type and StaticAccessor of a real System),
      fetch through 4 paths with single-threaded borrow probes while alive / after drop,
      setup through 4 paths on worlds with distinctive pre-existing values.  Observations are
@@ -269,6 +274,8 @@ def zoo_pipeline(ctx, invariants, tier=None, scale=1.0, what="", light=False):
         "structs_without_lifetime_turned_into_tuples": stats["structs_without_lifetime_turned_into_tuples"],
         "members_spelled_as_bare_type_parameter": stats["members_spelled_as_bare_type_parameter"],
         "custom_handler_leaves": stats["custom_handler_leaves"],
+        "dynamic_id_sibling_cells": stats["dynamic_id_sibling_cells"],
+        "max_flattened_reads": stats["max_flattened_reads"], "max_flattened_writes": stats["max_flattened_writes"],
         "arities_present": stats["arities_present"], "arity_positions_covered": stats["arity_positions_covered"],
         "max_depth": stats["max_depth"], "tlc_emitted": stats["emitted"],
         "events": tot.get("events", 0), "fetch_runs": tot.get("fetch_runs", 0), "setup_runs": tot.get("setup_runs", 0),
